@@ -1003,7 +1003,9 @@ func (p *Parser) parseTernary(conditionNode ast.Node) ast.Node {
 
 	firstToken := p.curToken // the "?"
 	p.nextToken()            // move past the '?'
-	precedence := p.currentPrecedence()
+	// Each branch is a complete expression. (Using the precedence of the
+	// branch's first token here would cut "c ? -a + b : d" short after "-a".)
+	precedence := LOWEST
 	ifTrue := p.parseExpression(precedence)
 	if ifTrue == nil {
 		p.setTokenError(p.curToken, "invalid syntax in ternary if true expression")
